@@ -193,6 +193,7 @@ pub trait DynVec<F: Family> {
               eats: &[(EndTok, Sink)], fin: FinTok, env: &Env<F>);
     fn lazy_ref_to(&self, i: usize, depth: u8, dst: &mut dyn DynVec<F>, at: Option<usize>);
     fn lazy_item<'a>(&'a self, i: usize, depth: u8) -> BoxedVal<'a>;
+    fn lazy_dc(&self, i: usize, depth: u8, ty: u8, env: &Env<F>);
     fn clone_vec(&self) -> Box<dyn DynVec<F>>;
     fn clone_empty_in(&self, bk: Option<&str>) -> Box<dyn DynVec<F>>;
     fn capacity_op(&mut self, op: &str, n: usize);
@@ -688,6 +689,9 @@ macro_rules! impl_kind {
             fn lazy_ref_to(&self, i: usize, depth: u8, dst: &mut dyn DynVec<F>, at: Option<usize>) {
                 impl_kind!(@lazyref $clone, self, i, depth, dst, at)
             }
+            fn lazy_dc(&self, i: usize, depth: u8, ty: u8, env: &Env<F>) {
+                impl_kind!(@lazydc $clone, self, i, depth, ty, env, F)
+            }
             fn lazy_item<'a>(&'a self, i: usize, depth: u8) -> BoxedVal<'a> {
                 impl_kind!(@lazyitem $clone, self, i, depth)
             }
@@ -750,6 +754,21 @@ macro_rules! impl_kind {
     }};
     (@lazyref no, $s:ident, $i:ident, $depth:ident, $dst:ident, $at:ident) => {{
         let _ = ($i, $depth, &$dst, $at);
+        panic!("harness: bad-op lazy clone on a non-Cloneable vector")
+    }};
+    (@lazydc yes, $s:ident, $i:ident, $depth:ident, $ty:ident, $env:ident, $F:ty) => {{
+        // `v.at(i).lazy_clone()[.lazy_clone()..].downcast::<T>()`
+        let e = $s.v.at($i);
+        let tok = match $depth {
+            1 => dispatch_tag!($F, $ty, [sink_dc], {$F, _,}, (e.lazy_clone(), $env)),
+            2 => { let l1 = e.lazy_clone(); dispatch_tag!($F, $ty, [sink_dc], {$F, _,}, (l1.lazy_clone(), $env)) }
+            _ => { let l1 = e.lazy_clone(); let l2 = l1.lazy_clone();
+                   dispatch_tag!($F, $ty, [sink_dc], {$F, _,}, (l2.lazy_clone(), $env)) }
+        };
+        match tok { Tok::N => out!("N"), Tok::Id(s) => out!("{}", s), _ => {} }
+    }};
+    (@lazydc no, $s:ident, $i:ident, $depth:ident, $ty:ident, $env:ident, $F:ty) => {{
+        let _ = ($i, $depth, $ty, $env);
         panic!("harness: bad-op lazy clone on a non-Cloneable vector")
     }};
     (@lazyitem yes, $s:ident, $i:ident, $depth:ident) => {{
